@@ -31,6 +31,14 @@ def c11(work, tier, seed):
                 steps = fs.session(token)[:4] + [{"k": "data", "cls": "valid", "n": 10}]
                 scripts.append({"id": "d%05d" % len(scripts), "origin": "opened/%s/stalled" % cause, "cfg": fs.base_cfg(token), "transport": tr,
                                 "tun": dict(fs.H_A, user="user1" if token else "nuser1"), "steps": steps, "point": "opened", "cause": cause, "inflight": "stalled"})
+    # the client keeps sending data packets (one every 200 ms) after the packet that ended its side
+    for tr in ("ws", "legacy"):
+        for point in ("authorized", "opened"):
+            for cause in ("protocol-error", "close-channel", "unframeable"):
+                token = len(scripts) % 2 == 0
+                steps = fs.session(token)[:4] + [{"k": "data", "cls": "valid", "n": 10}]
+                scripts.append({"id": "d%05d" % len(scripts), "origin": "%s/%s/keeps-sending" % (point, cause), "cfg": fs.base_cfg(token), "transport": tr,
+                                "tun": dict(fs.H_A, user="user1" if token else "nuser1"), "steps": steps, "point": point, "cause": cause, "inflight": "keeps-sending"})
     # the gateway reached over TLS (closing a connection then means sending an alert first, which fails on a connection
     # the client has reset): every way of ending at two points of the exchange
     for tr in ("ws", "legacy"):
